@@ -70,9 +70,11 @@ let run_recs id =
   let data_of tag r =
     if zi r = 0 then "-" else if special tag r then "special" else
     match M.get st tag r with Some b -> hex_of_bytes b | None -> "missing" in
+  let seen = List.concat (List.map (fun ((t, _), b) ->
+    if t = M.dFTAG_NDG then M.sdlnk_sdg st (M.di_decode (M.length b) b) else []) st) in
   let k = ref 0 in
   List.iter (fun ((t, r), b) ->
-    if t = M.dFTAG_NDG || t = M.dFTAG_SDG then begin
+    if t = M.dFTAG_NDG || (t = M.dFTAG_SDG && not (List.mem r seen)) then begin
       let members = M.di_decode (M.length b) b in
       let kind = if t = M.dFTAG_NDG then "ndg" else "sdg" in
       (match M.ndg_view st members with
